@@ -77,6 +77,15 @@ pub enum Mode {
     /// the mirror image: target sends `down` and half-closes; client reads to end-of-stream, then
     /// sends `up` message by message (`upc`), each awaited at the target, pauses, closes
     TargetFirstHold,
+    /// a target that has finished sending and reads LATE: it accepts, sends `down` (a short reply or
+    /// nothing), half-closes at once, makes its receive buffer small (`rcvbuf`), does not read for `slow`
+    /// ms, then reads (`pace` > 0: slowly) to end-of-stream.  The client reads the reply to end-of-stream,
+    /// then writes `up`, half-closes and closes.  A direct connection delivers every byte of `up` and then
+    /// end-of-stream to the target, whenever it gets round to reading.
+    LateTarget,
+    /// the mirror image: the local client sends `up` (short), half-closes at once and reads late; the
+    /// target reads to end-of-stream, then writes `down`, half-closes and closes
+    LateClient,
 }
 
 /// the close orders of the entry x mode matrix of the fixed pass
@@ -87,6 +96,9 @@ pub const MODES: [Mode; 8] = [
 
 /// dialogues after a half-close (their own matrix in the fixed pass)
 pub const HOLD_MODES: [Mode; 2] = [Mode::ClientFirstHold, Mode::TargetFirstHold];
+
+/// late-reading peers (their own family in the fixed pass; not drawn by the random scenarios)
+pub const LATE_MODES: [Mode; 2] = [Mode::LateTarget, Mode::LateClient];
 
 pub const ALL_MODES: [Mode; 10] = [
     Mode::Echo, Mode::ClientFirst, Mode::TargetFirst, Mode::Duplex, Mode::TargetCloses, Mode::TargetDrops,
@@ -106,10 +118,15 @@ impl Mode {
             Mode::Refuse => "refused",
             Mode::ClientFirstHold => "client-half-closes-target-holds",
             Mode::TargetFirstHold => "target-half-closes-client-holds",
+            Mode::LateTarget => "late-target",
+            Mode::LateClient => "late-client",
         }
     }
     pub fn parse(s: &str) -> Option<Self> {
-        ALL_MODES.iter().copied().find(|e| e.text() == s)
+        ALL_MODES.iter().chain(LATE_MODES.iter()).copied().find(|e| e.text() == s)
+    }
+    pub fn is_late(self) -> bool {
+        LATE_MODES.contains(&self)
     }
     pub fn is_hold(self) -> bool {
         HOLD_MODES.contains(&self)
@@ -128,21 +145,29 @@ pub struct TcpScn {
     /// the side that keeps the connection open before each of its messages and before its close
     pub slow_ms: u64,
     pub seed: u64,
+    /// late modes: SO_RCVBUF of the late reader's socket (0 = the system's default)
+    pub rcvbuf: usize,
+    /// late modes: the late reader's pause after every read of at most 32 KiB (0 = reads at full speed)
+    pub pace_ms: u64,
 }
 
 impl TcpScn {
     pub fn line(&self) -> String {
-        format!(
+        let mut l = format!(
             "tcp entry={} mode={} up={} down={} upc={} downc={} slow={} seed={}",
             self.entry.text(), self.mode.text(), self.up, self.down, self.upc.text(), self.downc.text(), self.slow_ms, self.seed
-        )
+        );
+        if self.mode.is_late() {
+            l.push_str(&format!(" rcvbuf={} pace={}", self.rcvbuf, self.pace_ms));
+        }
+        l
     }
     pub fn parse(line: &str) -> Option<Self> {
         let mut t = line.split_whitespace();
         if t.next()? != "tcp" {
             return None;
         }
-        let mut s = TcpScn { entry: Entry::Tcp, mode: Mode::Echo, up: 0, down: 0, upc: Chunk::Whole, downc: Chunk::Whole, slow_ms: 0, seed: 0 };
+        let mut s = TcpScn { entry: Entry::Tcp, mode: Mode::Echo, up: 0, down: 0, upc: Chunk::Whole, downc: Chunk::Whole, slow_ms: 0, seed: 0, rcvbuf: 0, pace_ms: 0 };
         for kv in t {
             let (k, v) = kv.split_once('=')?;
             match k {
@@ -154,6 +179,8 @@ impl TcpScn {
                 "downc" => s.downc = Chunk::parse(v)?,
                 "slow" => s.slow_ms = v.parse().ok()?,
                 "seed" => s.seed = v.parse().ok()?,
+                "rcvbuf" => s.rcvbuf = v.parse().ok()?,
+                "pace" => s.pace_ms = v.parse().ok()?,
                 _ => return None,
             }
         }
@@ -170,8 +197,8 @@ impl TcpScn {
         let up = self.up_bytes();
         let down = self.down_bytes();
         let (cslow, tslow) = if self.up >= self.down { (0, self.slow_ms) } else { (self.slow_ms, 0) };
-        let c = |role| Script { role, send: up.clone(), chunk: self.upc.clone(), read_delay_ms: cslow, gate: None };
-        let t = |role| Script { role, send: down.clone(), chunk: self.downc.clone(), read_delay_ms: tslow, gate: None };
+        let c = |role| Script { role, send: up.clone(), chunk: self.upc.clone(), read_delay_ms: cslow, gate: None, rcvbuf: None };
+        let t = |role| Script { role, send: down.clone(), chunk: self.downc.clone(), read_delay_ms: tslow, gate: None, rcvbuf: None };
         let n = |after, sd| Role::Normal { after_peer_eof: after, shutdown: sd };
         let gate = Some(Arc::new(Gate::new()));
         match self.mode {
@@ -191,7 +218,27 @@ impl TcpScn {
             Mode::TargetDrops => (Script { send: vec![], ..c(n(true, false)) }, t(Role::DropAfterSend)),
             Mode::ClientDrops => (c(Role::DropAfterSend), Script { send: vec![], ..t(n(true, false)) }),
             Mode::Refuse => (Script { send: vec![], ..c(n(true, false)) }, t(Role::Echo)),
+            Mode::LateTarget => (
+                Script { read_delay_ms: 0, ..c(n(true, true)) },
+                Script { read_delay_ms: self.slow_ms, rcvbuf: self.rcvbuf_opt(), ..t(Role::Late { pace_ms: self.pace_ms }) },
+            ),
+            Mode::LateClient => (
+                Script { read_delay_ms: self.slow_ms, rcvbuf: self.rcvbuf_opt(), ..c(Role::Late { pace_ms: self.pace_ms }) },
+                Script { read_delay_ms: 0, ..t(n(true, true)) },
+            ),
         }
+    }
+    fn rcvbuf_opt(&self) -> Option<u32> {
+        (self.rcvbuf > 0).then(|| self.rcvbuf.min(u32::MAX as usize) as u32)
+    }
+    /// late modes: how long the late reader may need on a direct connection before its first `step()` can
+    /// even start running out (the delay plus the pauses of a slow reader, generously)
+    pub fn late_allowance(&self) -> Duration {
+        if !self.mode.is_late() {
+            return Duration::ZERO;
+        }
+        let reads = (self.up.max(self.down) / 2048 + 2) as u64; // a small receive buffer makes the reads small
+        Duration::from_millis(self.slow_ms + 2 * reads * self.pace_ms)
     }
 }
 
@@ -344,6 +391,9 @@ pub async fn run_conn(w: Arc<World>, slot: usize, sc: TcpScn) -> ConnObs {
                     Ok(Err(e)) => Err(format!("connect entry point: {e}")),
                     Ok(Ok(s)) => {
                         let _ = s.set_nodelay(true);
+                        if let Some(n) = cscript.rcvbuf {
+                            let _ = crate::io::set_rcvbuf(&s, n);
+                        }
                         Ok(Box::new(s) as BoxStream)
                     }
                 }
@@ -384,7 +434,7 @@ pub async fn run_conn(w: Arc<World>, slot: usize, sc: TcpScn) -> ConnObs {
     }
     obs.client = run_side(stream, &cscript).await;
     if let Some(r) = rx {
-        match tokio::time::timeout(step() + Duration::from_secs(2), r).await {
+        match tokio::time::timeout(step() + Duration::from_secs(2) + sc.late_allowance(), r).await {
             Ok(Ok(t)) => {
                 obs.target = Some(t);
                 obs.target_connected = true;
@@ -444,6 +494,12 @@ pub fn check_conn(sc: &TcpScn, o: &ConnObs) -> Vec<(String, String)> {
         );
         return bad;
     };
+    if sc.mode == Mode::LateTarget {
+        return check_late(&o.client, t, "client", "target", "upload", &down, &up);
+    }
+    if sc.mode == Mode::LateClient {
+        return check_late(t, &o.client, "target", "client", "download", &up, &down);
+    }
     if sc.mode.is_hold() {
         return if sc.mode == Mode::ClientFirstHold {
             check_hold(&o.client, t, "client", "target", &up, &down)
@@ -508,6 +564,83 @@ pub fn check_conn(sc: &TcpScn, o: &ConnObs) -> Vec<(String, String)> {
             }
         }
         _ => {}
+    }
+    bad
+}
+
+/// The late modes. `late` = the end that sent `late_sent` (short), half-closed at once and started reading late;
+/// `writer` = the end that read that to end-of-stream, then wrote `bulk`, half-closed and closed.  On a direct
+/// connection: the writer reads `late_sent` and a clean end-of-stream, can write all of `bulk`, and the late end
+/// reads exactly `bulk` followed by a clean end-of-stream, never an error.
+fn check_late(writer: &SideObs, late: &SideObs, writer_name: &str, late_name: &str, what: &str, late_sent: &[u8], bulk: &[u8]) -> Vec<(String, String)> {
+    let mut bad: Vec<(String, String)> = vec![];
+    let how = |s: &SideObs| match (&s.hang, &s.read_err) {
+        (Some(h), _) => format!("left hanging: {h}"),
+        (_, Some(e)) => format!("read error instead: {e}"),
+        _ => "no end-of-stream".to_string(),
+    };
+    // the premise: the short message and the half-close of the late end reach the writer
+    if writer.received != late_sent {
+        let k = if late_sent.starts_with(&writer.received) { "incomplete" } else { "corrupt" };
+        bad.push((
+            format!("{late_name}-to-{writer_name}-{k}"),
+            format!("{late_name} -> {writer_name}: {}{}", diff(&writer.received, late_sent), writer.hang.as_ref().map(|h| format!("; {writer_name}: HANG {h}")).unwrap_or_default()),
+        ));
+        return bad;
+    }
+    if !writer.saw_eof {
+        bad.push((
+            format!("{writer_name}-no-eof"),
+            format!("the {late_name} sent {} bytes and half-closed at once; the {writer_name} got the data but no end-of-stream ({})", late_sent.len(), how(writer)),
+        ));
+        return bad;
+    }
+    // the other direction keeps working
+    if writer.sent != bulk.len() || writer.write_err.is_some() {
+        bad.push((
+            "reverse-direction-broken-after-half-close".into(),
+            format!(
+                "after the {late_name}'s half-close the {writer_name} could write only {} of {} bytes ({:?} {:?}) while the {late_name} had not begun to read",
+                writer.sent, bulk.len(), writer.write_err, writer.hang
+            ),
+        ));
+        return bad;
+    }
+    // the judgement proper, at the late reader
+    let got = late.received.len();
+    if let Some(e) = &late.read_err {
+        bad.push((
+            "reset-instead-of-eof".into(),
+            format!(
+                "the {writer_name} wrote {} bytes, half-closed and closed; the {late_name} (which had half-closed first and read late) read {got} of them{} and then got a read error instead of end-of-stream: {e}",
+                bulk.len(),
+                if late.received == bulk { "" } else if bulk.starts_with(&late.received) { " (a proper prefix: the tail is lost)" } else { " (not what was sent)" },
+            ),
+        ));
+        return bad;
+    }
+    if late.received != bulk {
+        let k = if bulk.starts_with(&late.received) && late.saw_eof {
+            format!("{what}-truncated")
+        } else if bulk.starts_with(&late.received) {
+            "hang".to_string()
+        } else {
+            format!("{what}-corrupt")
+        };
+        bad.push((
+            k,
+            format!(
+                "{writer_name} -> {late_name} (the {late_name} had half-closed first and read late): {}; end-of-stream={}{}",
+                diff(&late.received, bulk), late.saw_eof, late.hang.as_ref().map(|h| format!("; {late_name}: HANG {h}")).unwrap_or_default()
+            ),
+        ));
+        return bad;
+    }
+    if !late.saw_eof {
+        bad.push((
+            "hang".into(),
+            format!("the {writer_name} wrote {} bytes, half-closed and closed; the {late_name} got all data but no end-of-stream ({})", bulk.len(), how(late)),
+        ));
     }
     bad
 }
